@@ -5,6 +5,7 @@ from .. import common, corpus, suite_translate as st
 THEOREMS = ["Lou.C10.optargs_arrays", "Lou.C10.optargs_typeform", "Lou.C10.optargs_spacing", "Lou.C10.optargs_cursor",
             "Lou.C10.wrapper_string", "Lou.C10.idEngine_blind",
             "Lou.CurBlind.translate_cursor_blind", "Lou.CurBlind.modelEngine_blind", "Lou.CurBlind.model_optargs",
+            "Lou.ModelEngine.callFwd_eq",
 ]
 
 CLAIM = dict(
